@@ -148,6 +148,8 @@ class BaseNode(Node):
         value = self.value.copy()
         value.value = self.cast_value(node.value_raw)
         if isinstance(value, (IntegerType, FloatType)):
+            if node.units_raw and not self.units_raw:
+                raise Exception(f"Node '{self.name}' is defined without units and cannot be modified using units:", node.units_raw)
             value.unit = node.units_raw
             value.convert(self.units_raw, env)
         if value.value is None:
